@@ -306,6 +306,8 @@ func runC09(r *an.Run) {
 				}
 			}
 		})
+
+	policyInputs(r)
 }
 
 func constValue(p *an.Prog, pkg, name string) string {
